@@ -182,12 +182,14 @@ def run_tree(case):
     if not parent:
         if not check(res, f"C08/tree/master/len{len(seed)}-{net}", vc, obs_priv(root), ref_priv(rroot, vprv, vpub), "from_seed differs from BIP32 master key generation", "master==ref", ("master", case["sn"], net)):
             return res
-    par = root
-    for i in parent:
-        par = attempt(par.child, i) if not isinstance(par, Rejected) else par
-    pcls = path_class(parent)
-    if not check(res, f"C08/tree/parent/{pcls}", vc, obs_priv(par), ref_priv(rpar, vprv, vpub), "fold of child() along the parent path differs from the reference", "parent==ref"):
+    par, rn = root, rroot
+    if isinstance(root, Rejected):
+        res.violation(f"C08/tree/master/len{len(seed)}-{net}/rejected", vc, repr(root), "master key", "from_seed refuses the seed")
         return res
+    for i in parent:  # the fingerprint names the first step that goes wrong, not the whole path
+        par, rn = attempt(par.child, i), R.ckd_priv(rn, i)
+        if not check(res, f"C08/tree/priv-child/{idx_name(i)}", vc, obs_priv(par), ref_priv(rn, vprv, vpub), f"HDPrivateKey.child({idx_name(i)}) differs from reference CKDpriv (on the way to the parent)", "parent-step==ref"):
+            return res
     for i in case["children"]:
         key = (case["sn"], net, tuple(parent), i)
         nm = idx_name(i)
@@ -232,15 +234,15 @@ def gen_paths(tier, seed):
         cases.append({"sn": sn, "seed": seeds[sn].hex(), "net": net, "path": list(path), "styles": styles})
 
     if tier == "quick":
-        for sn, net in (("r16", "mainnet"), ("f64", "testnet")):
+        for sn, net, depths in (("r16", "mainnet", (1, 2)), ("f64", "testnet", (1,))):
             add(sn, net, [])
-            for d in (1, 2):
+            for d in depths:
                 for pth in itertools.product(BOUNDARY, repeat=d):
                     add(sn, net, pth)
         for pth in itertools.product([0, HARD - 1, HARD, 2**32 - 1], repeat=3):
-            add("r32", "mainnet", pth, [["m", "'"], ["M", "H"], ["m", "mix"]])
+            add("r32", "mainnet", pth, [["m", "'"], ["M", "H"]])
         for pth in DEEP8:
-            add("r64", "mainnet", pth)
+            add("r64", "mainnet", pth, [["m", "h"], ["M", "mix"], ["M", "'"]])
     else:
         for sn, net in (("r16", "mainnet"), ("f64", "testnet"), ("r33", "regtest")):
             add(sn, net, [])
@@ -266,6 +268,7 @@ def run_paths(case, toy=None):
     path = case["path"]
     net = case["net"]
     ename = case.get("engine", "paths")
+    fpn = "paths"  # same check on both instances: one fingerprint family
     vc = {"engine": ename, "case": case}
     if toy:
         vc["toy"] = list(toy)
@@ -284,18 +287,22 @@ def run_paths(case, toy=None):
         res.skip("reference: a key on the path is invalid (zero key / IL >= n): outside the statement")
         return res
     if isinstance(root, Rejected):
-        res.violation(f"C08/{ename}/root-rejected", vc, repr(root), "root key", "cannot build the root key")
+        res.violation(f"C08/{fpn}/root-rejected", vc, repr(root), "root key", "cannot build the root key")
         return res
     want = ref_priv(rnode, vprv, vpub)
     wantpub = ref_pub(rnode, vpub)
     pcls = path_class(path)
     # fold of child(), one component at a time
-    fold = root
-    for i in path:
-        fold = attempt(fold.child, i) if not isinstance(fold, Rejected) else fold
-    ofold = obs_priv(fold)
-    if not check(res, f"C08/{ename}/fold/{pcls}", vc, ofold, want, "child() applied component by component differs from the reference", "fold==ref"):
+    fold, rn = root, rroot
+    ofold = obs_priv(root)
+    if not check(res, f"C08/{fpn}/root", vc, ofold, ref_priv(rroot, vprv, vpub), "root key differs from the reference", "root==ref"):
         return res
+    for i in path:  # the fingerprint names the first step that goes wrong, not the whole path
+        fold, rn = attempt(fold.child, i), R.ckd_priv(rn, i)
+        ofold = obs_priv(fold)
+        if not check(res, f"C08/{fpn}/fold-step/{idx_name(i)}", vc, ofold, ref_priv(rn, vprv, vpub), "child() applied component by component differs from the reference", "fold-step==ref"):
+            return res
+    assert diff(ofold, want) is None
     hardened = any(i >= HARD for i in path)
     styles = styles_of(path)
     if case.get("styles"):
@@ -303,16 +310,17 @@ def run_paths(case, toy=None):
         styles = [s for s in styles if (s[0], s[1]) in allowed or s[1] == "-"]
     for pfx, mk, s in styles:
         st = f"prefix={pfx},marker={mk}"
+        stp = f"prefix={pfx}"  # public paths carry no marker
         assert R.parse_path(s) == path
         key = (ename, case.get("sn") or case.get("k"), case.get("c"), tuple(path), s)
         t = attempt(root.traverse, s)
         ot = obs_priv(t)
         if isinstance(ot, Rejected):
-            res.violation(f"C08/{ename}/priv-traverse-rejected/{st}", vc, {"path": s, "result": repr(ot)}, "key at the path", "HDPrivateKey.traverse refuses a valid path string")
+            res.violation(f"C08/{fpn}/priv-traverse-rejected/{st}", vc, {"path": s, "result": repr(ot)}, "key at the path", "HDPrivateKey.traverse refuses a valid path string")
         else:
             d = diff(ot, ofold)
             if d is not None:
-                res.violation(f"C08/{ename}/priv-traverse!=fold/{st}/{d}", vc, {"path": s, d: ot.get(d)}, {d: ofold.get(d)}, "traverse(path) differs from deriving the components one by one")
+                res.violation(f"C08/{fpn}/priv-traverse!=fold/{st}/{d}", vc, {"path": s, d: ot.get(d)}, {d: ofold.get(d)}, "traverse(path) differs from deriving the components one by one")
             else:
                 res.ok("priv-traverse==fold==ref", key if path else None, sample={"path": s, "xpub": want["xpub"][:16] + "..."} if len(path) == 2 and mk == "H" else None)
         # public side
@@ -321,15 +329,15 @@ def run_paths(case, toy=None):
             if isinstance(tp, Rejected) or tp is None:
                 res.ok("pub-traverse-hardened-refused", ("pubref",) + key)
             else:
-                res.violation(f"C08/{ename}/pub-traverse-hardened-accepted/{st}", vc, {"path": s, "result": str(obs_pub(tp))[:200]}, "refusal", "HDPublicKey.traverse returned a key for a path with a hardened component")
+                res.violation(f"C08/{fpn}/pub-traverse-hardened-accepted/{st}", vc, {"path": s, "result": str(obs_pub(tp))[:200]}, "refusal", "HDPublicKey.traverse returned a key for a path with a hardened component")
         else:
             otp = obs_pub(tp)
             if isinstance(otp, Rejected):
-                res.violation(f"C08/{ename}/pub-traverse-rejected/{st}", vc, {"path": s, "result": repr(otp)}, "public key at the path", "HDPublicKey.traverse refuses a valid non-hardened path string (the private side accepts it)")
+                res.violation(f"C08/{fpn}/pub-traverse-rejected/{stp}", vc, {"path": s, "result": repr(otp)}, "public key at the path", "HDPublicKey.traverse refuses a valid non-hardened path string (the private side accepts it)")
             else:
                 d = diff(otp, wantpub)
                 if d is not None:
-                    res.violation(f"C08/{ename}/pub-traverse-wrong/{st}/{d}", vc, {"path": s, d: otp.get(d)}, {d: wantpub.get(d)}, "public traverse differs from the public half of the private traverse")
+                    res.violation(f"C08/{fpn}/pub-traverse-wrong/{stp}/{d}", vc, {"path": s, d: otp.get(d)}, {d: wantpub.get(d)}, "public traverse differs from the public half of the private traverse")
                 else:
                     res.ok("pub-traverse==priv-traverse.pub==ref", ("pub",) + key if path else None)
     return res
@@ -369,7 +377,7 @@ def synthetic_nodes(tier, seed):
 
 
 def gen_codec(tier, seed):
-    cases = [{"kind": "syn", "node": nd} for nd in synthetic_nodes(tier, seed)]
+    cases = [{"kind": "syn", "node": nd, "j": j} for j, nd in enumerate(synthetic_nodes(tier, seed))]
     seeds = dict(seeds_for(tier, seed))
     derived = [("r16", []), ("r32", [HARD]), ("f64", [HARD - 1, 2**32 - 1]), ("z16", [0, 1, HARD + 1])]
     if tier == "thorough":
@@ -469,8 +477,12 @@ def run_codec(case):
             else:
                 res.ok("raw_parse(network)", ("raw", nm, net, is_priv))
     # constructor direction: default versions per network and explicit SLIP-132 pairs
-    combos = [(net, None, None) for net in NETWORKS]
-    combos += [("mainnet" if cls == "main" else "testnet", letter + "prv", letter + "pub") for letter, cls, _, _ in R.SLIP132]
+    slip = [("mainnet" if cls == "main" else "testnet", letter + "prv", letter + "pub") for letter, cls, _, _ in R.SLIP132]
+    if case["kind"] == "der" or nm == "base":
+        combos = [(net, None, None) for net in NETWORKS] + slip
+    else:  # deviation nodes: the default of one network class and one SLIP-132 pair, rotating with the node
+        j = case.get("j", 0)
+        combos = [(NETWORKS[j % 4], None, None), slip[j % 10]]
     for net, pn, qn in combos:
         dprv, dpub = R.default_versions(net)
         vprv = R.version_bytes(pn) if pn else dprv
@@ -553,7 +565,10 @@ def run_blind(case):
     start_xpub = rstart.ser(v, False)
     sp = R.format_path(start, *case["start_style"])
     xp = R.format_path(secret, case["secret_prefix"], "'")
-    st = f"start={case['start_style'][0]}{case['start_style'][1] if any(i >= HARD for i in start) else ''},secret={case['secret_prefix']}"
+    if case["secret_prefix"] != "m":
+        st = f"secret-prefix={case['secret_prefix']}"
+    else:
+        st = f"start-style={case['start_style'][0]}{case['start_style'][1] if any(i >= HARD for i in start) else ''}"
     key = (case["sn"], case["version"], tuple(start), tuple(secret), sp, xp)
     got = attempt(blind_xpub, start_xpub, sp, xp)
     if hardened:
